@@ -3,6 +3,7 @@ import YardlProofs.StreamsW
 import YardlProofs.StreamsR
 import YardlProofs.PyStreamSeq
 import YardlProofs.CppStreamSeq
+import YardlProofs.StreamCompose
 
 /-!
 # C01 — Binary write/read round trip and wire-format conformance
@@ -111,6 +112,21 @@ example : (⟨10, [0xac], false, [0x02, 0x07]⟩ : CIS).pending = encCItems [.va
   intro i hi
   simp at hi
   rcases hi with h | h <;> subst h <;> simp [CItem.ok]
+
+/-- **Writer and reader streams composed, 2 × 2**: what either buffered output stream (C++ / Python model) emits for a
+    sequence of items, from an empty stream, is read back by either buffered input stream (C++ / Python model) as exactly
+    those items — four independent capacities, any refill boundaries, any sequence, anything may follow. -/
+theorem written_by_either_stream_read_by_either (items : List CItem) (hi : ∀ i ∈ items, i.ok)
+    (w : COS) (hw : 10 ≤ w.cap) (hwinv : w.Inv) (hwe : w.abs = []) (out : Bytes)
+    (hout : out = (Cpp.run w (items.map CItem.toW)).abs ∨ out = (Py.run w (items.map CItem.toW)).abs)
+    (rest : Bytes) :
+    (∀ r : CIS, 10 ≤ r.cap → r.Inv → r.pending = out ++ rest →
+      ∃ r', r.readItems items = .ok (items.map CItem.val) r' ∧ r'.pending = rest) ∧
+    (∀ r : PIS, 0 < r.cap → r.Inv → r.pending = out ++ rest →
+      ∃ r', r.readItems (items.map CItem.toR) = .ok ((items.map CItem.val).map CItem.rval) r' ∧ r'.pending = rest) :=
+  Yardl.written_by_either_read_by_either items hi w hw hwinv hwe out hout rest
+
+example : (⟨10, [], [], false⟩ : COS).Inv ∧ (⟨10, [], [], false⟩ : COS).abs = [] := by simp [COS.Inv, COS.abs]
 
 /-- **The Python input stream, over whole read sequences.** A generated Python reader is a sequence of primitive
     reads of `CodedInputStream`; a reader that issues the reads matching what was written gets exactly the written
